@@ -398,16 +398,23 @@ def autogreek_obligations(seed):
             rds = [t_.reader() for t_ in ts]
             deps = frozenset().union(*[t_.deps for t_ in ts])
             return Tensor.fresh(lambda idx: tm.app(fname, *[r(()) for r in rds]), (), torch.float64, deps)
-        g = {'_apply': _apply}
+        g = {'_apply': _apply, '__name__': 'user_pricers'}      # like functions defined in a user's module: all called `pricer`
         exec(src, g)
         return g['pricer'], fname
 
-    def case(greek, pricer_names, caller, expect_fn, label):
-        """caller: dict name -> var term passed by the user; expect_fn(Pname) -> T expected value."""
+    def case(greek, pricer_names, caller, expect_fn, label, before=None):
+        """caller: dict name -> var term passed by the user; expect_fn(Pname) -> T expected value.
+        before: (greek, pricer_names, caller) of an EARLIER call in the same process with another pricer of the same
+        qualified name (all generated pricers are called `pricer`): nothing of it may influence this call."""
         def check():
             pricer, fname = P(*pricer_names)
 
             def run(c):
+                if before is not None:
+                    g0, names0, caller0 = before
+                    pr0, _ = P(*names0)
+                    kw0 = {k_: (SReal(t_) if k_ == 'strike' else Tensor.fresh(lambda idx, t_=t_: t_, (), torch.float64)) for k_, t_ in caller0.items()}
+                    getattr(ag, g0)(pr0, **kw0)
                 kw = {}
                 for k_, term in caller.items():
                     kw[k_] = SReal(term) if k_ == 'strike' else Tensor.fresh(lambda idx, term=term: term, (), torch.float64)
@@ -415,6 +422,14 @@ def autogreek_obligations(seed):
             paths = explore(run, pos)
             rets = [p for p in paths if p.outcome() == 'returns']
             if len(paths) != 1 or not rets:
+                # the user pricer rejected the keyword arguments autogreek built for it (raised at the call inside autogreek.py, not in the
+                # torch shim): the contract says this call returns the derivative - decided by the replay on real torch
+                wrong_kw = [p for p in paths if p.outcome() == 'raises:TypeError' and 'pricer()' in str(p.exception) and 'autogreek.py' in (p.traceback or '') and 'torchlib' not in (p.traceback or '')[-600:]]
+                if wrong_kw:
+                    rp = _replay_autogreek()
+                    if rp.get('confirmed'):
+                        return Verdict('refuted', 'path-exploration', 0, 'autogreek.%s calls the pricer with the wrong keyword arguments: %s' % (greek, str(wrong_kw[0].exception)[:200]),
+                                       witness={'exception': str(wrong_kw[0].exception)[:200]}, replay=rp)
                 return Verdict('unknown', 'engine', 0, 'paths: %s' % [(p.outcome(), str(p.exception)[:200], p.traceback[-400:]) for p in paths])
             got = rets[0].result.at(())
             got = _inline_leaves(got, rets[0])
@@ -473,6 +488,17 @@ def autogreek_obligations(seed):
     # ---- theta
     obs.append(case('theta', ('spot', 'time_to_maturity'), {'spot': sp_, 'time_to_maturity': tt},
                     lambda f: tm.neg(tm.app(f + '.d1', sp_, tt)), 'time_to_maturity'))
+    # call history: an earlier call with ANOTHER pricer of the same name and a different signature leaves no trace
+    obs.append(case('delta', ('moneyness', 'volatility'), {'spot': sp_, 'strike': K, 'volatility': vo},
+                    lambda f: tm.div(d0(f, tm.div(sp_, K), vo), K), 'history[after a same-named pricer(spot,volatility)]->moneyness',
+                    before=('delta', ('spot', 'volatility'), {'spot': sp_, 'volatility': vo})))
+    obs.append(case('vega', ('spot', 'variance'), {'spot': sp_, 'volatility': vo},
+                    lambda f: tm.mul(tm.app(f + '.d1', sp_, tm.mul(vo, vo)), tm.const(2, 'R'), vo), 'history[after a same-named pricer(spot,volatility)]->variance',
+                    before=('vega', ('spot', 'volatility'), {'spot': sp_, 'volatility': vo})))
+    obs.append(case('gamma', ('log_moneyness', 'volatility'), {'log_moneyness': lm, 'strike': K, 'volatility': vo},
+                    lambda f: (lambda Sx: tm.div(tm.sub(d00(f, lm, vo), d0(f, lm, vo)), tm.mul(Sx, Sx)))(tm.mul(tm.app('exp', lm), K)),
+                    'history[after a same-named pricer(spot,volatility)]->log_moneyness',
+                    before=('gamma', ('spot', 'volatility'), {'spot': sp_, 'volatility': vo})))
     # extra caller arguments not in the pricer's signature are dropped, not passed
     obs.append(case('delta', ('spot',), {'spot': sp_, 'volatility': vo, 'time_to_maturity': tt},
                     lambda f: d0(f, sp_), 'drops-unknown-arguments'))
